@@ -106,7 +106,12 @@ def run_once(args):
     for s in init:
         a += ["-b", s]
     a += [x.replace("{OUT}", out).replace("{DATE}", date) for x in cargs]
+    stale = None
+    if rep % 2 == 1 and any("{OUT}" in x for x in cargs):
+        stale = common.prefill_output_dir(out, inp_files)       # every other run writes into a directory that already holds a longer report
     r = common.run_cli("acb", a, home=wd)
+    if stale is not None and os.path.isdir(out):
+        common.drop_untouched(out, stale)
     dd, nf = digest_dir(out) if os.path.isdir(out) else ("-", 0)
     # stdout only (the statement is about standard output and output files)
     return (cname, rep, r["rc"], hashlib.sha1(r["out"]).hexdigest(), dd, nf, r["out"][:3000].decode("utf-8", "replace"))
